@@ -635,7 +635,7 @@ class Path:
         if isinstance(op, ast.USub):
             if isinstance(v, SymFloat):
                 # -x flips the sign bit (also of NaN and zero)
-                return SymFloat(simp(v.bits + (1 - 2 * (v.bits / (1 << 63))) * (1 << 63)))
+                return self.ex.intrinsics.float_neg(self, v)
             if isinstance(v, (int, float, Fraction)) and not is_z3(v):
                 return -v
             if is_fraclike(v):
